@@ -107,11 +107,19 @@ def explore(
     check: Callable[[Exec], None],
     bound: int,
     max_exec: Optional[int] = None,
+    part: Tuple[int, int] = (0, 1),
 ) -> Stats:
-    """Run every order with <= bound deviations; `check` judges each completed execution."""
+    """Run every order with <= bound deviations; `check` judges each completed execution.
+
+    part=(k, n): the subtrees below the first deviation are numbered in enumeration order and only
+    those with number % n == k are explored (the deviation-free execution belongs to part 0), so n
+    calls with k = 0..n-1 cover the space exactly once and can run in different processes."""
     prio = static_priority(graph)
     st = Stats()
     seen_orders = set()
+
+    k, n = part
+    counter = [0]
 
     def rec(prefix: List[int], ndev: int):
         if max_exec is not None and st.executions >= max_exec:
@@ -119,16 +127,23 @@ def explore(
         x = run_order(graph, prio, ctxobj, prefix)
         if x.choices[: len(prefix)] != list(prefix):
             raise ReplayDivergence("prefix not reproduced")
-        st.executions += 1
-        st.tasks_run += len(x.order)
-        st.max_ready = max([st.max_ready] + x.nready)
-        st.by_deviations[ndev] = st.by_deviations.get(ndev, 0) + 1
-        seen_orders.add(tuple(map(str, x.order)))
-        check(x)
+        mine = ndev > 0 or k == 0
+        if mine:
+            st.executions += 1
+            st.tasks_run += len(x.order)
+            st.max_ready = max([st.max_ready] + x.nready)
+            st.by_deviations[ndev] = st.by_deviations.get(ndev, 0) + 1
+            seen_orders.add(tuple(map(str, x.order)))
+            check(x)
         if ndev >= bound:
             return
         for i in range(len(prefix), len(x.choices)):
             for alt in range(1, x.nready[i]):
+                if ndev == 0:
+                    q = counter[0]
+                    counter[0] += 1
+                    if q % n != k:
+                        continue
                 rec(x.choices[:i] + [alt], ndev + 1)
 
     rec([], 0)
